@@ -16,6 +16,7 @@ EXPLANATION = ("cnf_sound / cnf_complete / solve_spec proved for the model over 
                "sat.solve by comparing clause sets (named through the IDPool) and results; the oracle enumerates assignments")
 SHARD = 40
 WIDEN = 1
+EXTRA_TARGETS = ["theories/Run/SatRunProofs.vo"]
 HASHSEEDS = {"quick": [0, 1], "thorough": [0, 1, 2, 3, 4, 5, 6, 7]}
 
 
@@ -126,7 +127,7 @@ def classify(case, obs):
         tags += U.describe(case["circuit"])
         if "cnf" in obs:
             nv = len(U.vars_of(obs["cnf"]) | {json.dumps(["n", n[0]]) for n in case["circuit"]["nodes"]})
-            tags.append("oracle:both-directions" if nv <= 12 and len(case["circuit"]["nodes"]) <= 10 else "oracle:completeness-only")
+            tags.append("cnf-vars:" + ("<=12" if nv <= 12 else "13-20" if nv <= 20 else ">20"))
             if any(v[0] != "n" for c_ in obs["cnf"] for _, v in c_):
                 tags.append("has-aux-vars")
         else:
@@ -155,7 +156,8 @@ LEVEL_TEXT = ("Theorems (all lint-clean closed circuits without x, all operand o
               "to node variables are exactly the consistent valuations (cnf_sound, cnf_complete), cnf is total, acyclic circuits have exactly one "
               "projected model per startpoint assignment, and solve meets its specification relative to a sound and complete solver. The clause "
               "templates the model runs on are regenerated from sat.py on every run and proved semantically exact. The model is tied to sat.cnf / "
-              "sat.solve by correspondence of clause sets and results.")
+              "sat.solve by correspondence of clause sets and results; the oracle's soundness half (all models of the recorded clauses, any size) "
+              "is proved to decide the specification (C01_oracle_sound).")
 LEVEL_NOTE = ("Trusted: Coq kernel + vm_compute, std++, translator shapes for sat.cnf (chain loop compared structurally, fail closed), harness naming "
               "of CNF variables through the IDPool. The SAT solver is a Section variable with hypotheses sound+complete (python-sat is absent; the "
               "pure-Python stand-in's answers are re-checked by the oracle). IDPool numbering is not modelled (clauses are compared by name).")
